@@ -22,6 +22,11 @@ type SMT struct {
 	inst2 map[string]string
 	// DecFull: emit the digit-class/length facts for decimal renderings
 	DecFull bool
+	// SplitTail: strings.Split results get only the last-part / join facts, not the first-separator unrolling
+	// (contract flag `splittail`; leaving assumptions out is sound and keeps the string goals small)
+	SplitTail bool
+	// SplitExt: additionally the join-of-parts, separator-is-prefix and last-part facts (contract flag `splitext`)
+	SplitExt bool
 	// concrete type tags
 	tags map[string]int
 	// used sentinel errors
@@ -87,8 +92,28 @@ const preludeSMT = `(set-option :produce-models true)
 
 func (b *SMT) Raw(s string) { b.lines = append(b.lines, s) }
 
+var qvRe = regexp.MustCompile(`qv![A-Za-z0-9_]+![0-9]+`)
+
+// hasFreeQV: the term mentions a bound variable of a contract quantifier outside any binder for it.
+func hasFreeQV(t string) bool {
+	if !strings.Contains(t, "qv!") {
+		return false
+	}
+	for _, v := range qvRe.FindAllString(t, -1) {
+		if !strings.Contains(t, "("+v+" ") {
+			return true
+		}
+	}
+	return false
+}
+
 func (b *SMT) Assert(t string) {
 	if t == "true" {
+		return
+	}
+	if hasFreeQV(t) {
+		// a library fact about a term under a quantifier of a contract formula: it cannot be stated at top
+		// level; leaving an assumption out is sound
 		return
 	}
 	b.lines = append(b.lines, "(assert "+t+")")
@@ -609,6 +634,9 @@ func (b *SMT) Hash(fn, x string) string {
 var digitsRe = `(re.+ (re.range "0" "9"))`
 
 func (b *SMT) Dec(x string) string {
+	if x != "" && strings.Trim(x, "0123456789") == "" && (len(x) == 1 || x[0] != '0') {
+		return smtString(x) // decimal rendering of a literal
+	}
 	return b.axiom("dec", "Int", x, func(x string) string {
 		t := app("dec", x)
 		// default facts: inverse, and free of the two separators that matter for key/identifier layouts.
